@@ -10,7 +10,7 @@ use crate::exch::{ExchCfg, Gate, Menu};
 use crate::exch_run::{replay_exchange, run_exchanges};
 use crate::gen::*;
 
-pub const RULE: &str = "exchanges = request menu (method, version, framing none/Content-Length/default chunked/explicit chunked, Expect, Connection: close, despite-method) x server menu (optional interim 100 / silent server / refusal, final status {200,204,304,404,301,302,307,403}, version, body none/CL 0/CL n/chunked 1-2 chunks with extension and trailers/close-delimited, Connection: close, trailing bytes of a next response; a non-3xx with Location; both framing headers; a 40-field head; empty-valued fields ahead of Connection / Location; chunk-size lines of exactly 20 bytes) x boundary stopping {off,on}, plus 25 000-byte request bodies with several chunks per write; per exchange the COMPLETE graph of states (full flow fingerprint, consumed, arrived, body cursor, observations) under: head write with every buffer size 0..=|head|+1, body writes with inputs {1,2,rest} x buffers {0,1,5,6,7,8,11,12,large} and direct-write reports, 1-byte arrivals (every window the caller can ever present), try_read_100 / give-up / try_response / read with buffers {0,1,2,3,4,large} at every window, proceed whenever ready; queries and readiness-vs-proceed checked in every state; every final state must show the same observation and the reference verdict; every state must be able to reach the end; plus interleaving: for all 49 ordered pairs of seven exchanges, two flows driven alternately on one thread along a fine-grained schedule - every (i, j): first flow i steps, second j steps, first to its end, second to its end - under the same oracles (no state shared between objects). distinct = distinct (exchange, final observation) pairs";
+pub const RULE: &str = "exchanges = request menu (method, version, framing none/Content-Length/default chunked/explicit chunked, Expect, Connection: close, despite-method) x server menu (optional interim 100 / silent server / refusal, final status {200,204,304,404,301,302,307,403}, version, body none/CL 0/CL n/chunked 1-2 chunks with extension and trailers/close-delimited, Connection: close, trailing bytes of a next response; a non-3xx with Location; both framing headers; a 40-field head; empty-valued fields ahead of Connection / Location; chunk-size lines of exactly 20 bytes; size, last-chunk and trailer lines of every length 1..=16 with the stream ending right after the body or one byte later) x boundary stopping {off,on}, plus 25 000-byte request bodies with several chunks per write, and two requests obtained by following a redirect (dropped headers between kept ones); per exchange the COMPLETE graph of states (full flow fingerprint, consumed, arrived, body cursor, observations) under: head write with every buffer size 0..=|head|+1, body writes with inputs {1,2,rest} x buffers {0,1,5,6,7,8,11,12,large} and direct-write reports, 1-byte arrivals (every window the caller can ever present), try_read_100 / give-up / try_response / read with buffers {0,1,2,3,4,large} at every window, proceed whenever ready; queries and readiness-vs-proceed checked in every state; every final state must show the same observation and the reference verdict; every state must be able to reach the end; plus interleaving: for all 49 ordered pairs of seven exchanges, two flows driven alternately on one thread along a fine-grained schedule - every (i, j): first flow i steps, second j steps, first to its end, second to its end - under the same oracles (no state shared between objects). distinct = distinct (exchange, final observation) pairs";
 
 const MANY_FIELDS: [(&str, &str); 40] = [
     ("X-Info-0", "a"), ("X-Info-1", "b"), ("X-Info-2", "c"), ("X-Info-3", "d"), ("X-Info-4", "e"), ("X-Info-5", "f"), ("X-Info-6", "g"), ("X-Info-7", "h"),
@@ -211,6 +211,59 @@ pub fn build(tier: Tier) -> Vec<Arc<ExchCfg>> {
             let c = ExchCfg::new("C01", r.cfg.clone(), r.body.clone(), server(fm.clone(), None, Gate::AfterBody), next.clone(), menu).expect("cfg");
             out.push(Arc::new(c));
         }
+    }
+    // line lengths of every residue modulo 16: a size line, a last-chunk line and a trailer line of L bytes, the
+    // stream ending right after the body or followed by one more byte (a line scanner working a word at a time
+    // goes wrong only where the line end falls near a word boundary AND nothing more arrives)
+    {
+        use crate::refmodel::chunked::{encode, ChunkSpec};
+        let r = req("GET", "1.1", ReqFraming::Default, 0, false, false, false);
+        for l in 1..=16usize {
+            let size_txt = format!("{:0>w$}", "2", w = l);
+            let last = "0".repeat(l);
+            let trailer = if l >= 2 { format!("A:{}", "b".repeat(l - 2)) } else { String::new() };
+            let trailers: Vec<&str> = if l >= 2 { vec![trailer.as_str()] } else { vec![] };
+            let codings = [encode(&[ChunkSpec { data: b"de".to_vec(), size_txt, ext: String::new() }], "0", &[]), encode(&[ChunkSpec { data: b"abc".to_vec(), size_txt: "3".into(), ext: String::new() }], &last, &trailers)];
+            for c in codings {
+                let mut fm = final_msg("GET", "1.1", 200, &[], &BodySpec::Chunked { chunks: vec![b"abc".to_vec()], ext: false, trailers: 0 });
+                fm.body = crate::driver::RespBody::Chunked { coding: c.bytes.clone(), payload: c.payload.clone(), ranges: c.data_ranges.clone() };
+                for tail in [&b""[..], &b"H"[..]] {
+                    let mut menu = Menu::default_large();
+                    menu.head_bufs = vec![4096];
+                    menu.arrive = vec![1];
+                    menu.read_bufs = vec![0, 1, 3, 4096];
+                    menu.stop_boundary = l % 2 == 0;
+                    let c = ExchCfg::new("C01", r.cfg.clone(), r.body.clone(), server(fm.clone(), None, Gate::AfterBody), tail.to_vec(), menu).expect("cfg");
+                    out.push(Arc::new(c));
+                }
+            }
+        }
+    }
+    // the request of a flow obtained by following a redirect: headers of the original request that the redirect
+    // drops (Cookie, Authorization, Content-Length) sit between others, and the head is written with every buffer size
+    for (status, same_host) in [(302u16, false), (307, true)] {
+        let method = if status == 307 { "GET" } else { "POST" };
+        let mut r = req("GET", "1.1", ReqFraming::Default, 0, false, false, false);
+        r.cfg = crate::driver::ReqCfg::new("GET", "1.1", "http://a.test/next").orig("accept", "*/*").orig("x-trace", "abc").orig("user-agent", "ua/1");
+        let prep: crate::exch::PrepFn = Arc::new(move || {
+            use crate::chain::{Followed, Loc};
+            let mut orig = crate::driver::ReqCfg::new(method, "1.1", "http://a.test/p").orig("accept", "*/*").orig("cookie", "k=v").orig("x-trace", "abc").orig("authorization", "S3CRET");
+            if method == "POST" {
+                orig = orig.orig("content-length", "3");
+            }
+            orig = orig.orig("user-agent", "ua/1");
+            let pf = orig.build_prepare()?;
+            match crate::chain::follow_ex(&pf, if method == "POST" { b"abc" } else { b"" }, status, &Loc::one("/next"), same_host, false)? {
+                Followed::New(f) => Ok(f),
+                _ => Err("redirect not followed".into()),
+            }
+        });
+        let fm = final_msg("GET", "1.1", 200, &[], &BodySpec::Length(b"ok".to_vec()));
+        let mut menu = Menu::default_large();
+        menu.arrive = vec![usize::MAX];
+        let mut c = ExchCfg::new_with_prep("C01", r.cfg.clone(), r.body.clone(), server(fm, None, Gate::AfterBody), next.clone(), menu, Some(prep)).expect("cfg");
+        c.menu.head_bufs = (0..=c.ref_head.len() + 1).collect();
+        out.push(Arc::new(c));
     }
     // large request bodies: several chunks per write, buffers around the 10 KiB chunk size
     for fr in [ReqFraming::Default, ReqFraming::Length(25_000)] {
